@@ -989,12 +989,15 @@ func HarnessC08MoreShapes() {
 		}
 	case 2: // error as argument
 		msg := verifrt.String(1)
-		res, found, p := c08CallMethodOn(px, "TakeErr", NewError(errors.New("e"+msg)))
+		sentinel := errors.New("e" + msg)
+		res, found, p := c08CallMethodOn(px, "TakeErr", NewError(sentinel))
 		verifrt.Assert(found && !p, "method-call-never-panics")
 		if found && !p {
 			if _, isErr := res.(*Error); !isErr {
 				verifrt.Reach("err-arg")
 				verifrt.Assert(st.gotErr != nil && st.gotErr.Error() == "e"+msg, "error-argument-arrives")
+				// Go gets the error value itself (err == sentinel, errors.Is), not a wrapper
+				verifrt.Assert(st.gotErr == sentinel, "error-argument-is-the-original-go-error")
 			}
 		}
 	case 3: // []byte argument and result
